@@ -123,6 +123,13 @@ fn sc_name(sc: Scanner) -> String {
     }
 }
 fn check_c16(si: usize, s: &[u8], offset: usize, pre: usize, chunk: usize, step: usize) -> Option<(String, String)> {
+    // a panic of the scanner (or of the reader underneath it) is a wrong answer, not the end of the suite
+    match std::panic::catch_unwind(std::panic::AssertUnwindSafe(|| check_c16_inner(si, s, offset, pre, chunk, step))) {
+        Ok(r) => r,
+        Err(p) => Some(("C16 the scanner returns instead of panicking".into(), format!("panic: {}", panic_msg(p)))),
+    }
+}
+fn check_c16_inner(si: usize, s: &[u8], offset: usize, pre: usize, chunk: usize, step: usize) -> Option<(String, String)> {
     set_case_raw(case_c16, s, &[si as i64, offset as i64, pre as i64, chunk as i64, step as i64]);
     let sc = SCANNERS[si];
     // pre == len + 1: everything buffered AND the end of the input already seen by an earlier look-ahead
@@ -159,6 +166,54 @@ fn check_c16(si: usize, s: &[u8], offset: usize, pre: usize, chunk: usize, step:
                 format!("{} at offset {} of {:?} with {} bytes buffered: read on to the end of the input although byte {} decides", sc_name(sc), offset, show(s), d0, needed - 1),
             ));
         }
+    }
+    None
+}
+
+/// the scanner after a history: `lead` bytes requested (plus `extra` look-ahead) and advanced over, `interrupt` = every n-th read is interrupted
+fn case_c16h(s: &[u8], n: &[i64]) -> (String, String, Vec<String>) {
+    let mut a = vec!["c16h".to_string()];
+    a.extend(n.iter().map(|x| x.to_string()));
+    a.push(hex(s));
+    ("C16 the scanner terminates".into(), format!("{} on {:?} at offset {} after {} consumed bytes", sc_name(SCANNERS[n[0] as usize]), show(s), n[1], n[2]), a)
+}
+fn check_c16h(si: usize, s: &[u8], offset: usize, lead: usize, extra: usize, chunk: usize, step: usize, interrupt: usize) -> Option<(String, String)> {
+    // a panic of the scanner (or of the reader underneath it) is a wrong answer, not the end of the suite
+    match std::panic::catch_unwind(std::panic::AssertUnwindSafe(|| check_c16h_inner(si, s, offset, lead, extra, chunk, step, interrupt))) {
+        Ok(r) => r,
+        Err(p) => Some(("C16 the scanner returns instead of panicking".into(), format!("panic: {}", panic_msg(p)))),
+    }
+}
+fn check_c16h_inner(si: usize, s: &[u8], offset: usize, lead: usize, extra: usize, chunk: usize, step: usize, interrupt: usize) -> Option<(String, String)> {
+    set_case_raw(case_c16h, s, &[si as i64, offset as i64, lead as i64, extra as i64, chunk as i64, step as i64, interrupt as i64]);
+    let sc = SCANNERS[si];
+    let mut data: Vec<u8> = (0..lead).map(|i| b"xyzw"[i % 4]).collect();
+    data.extend_from_slice(s);
+    let (src, m) = Src::new(&data, Sched { chunk, mode: Mode::Step(step), fail_at: None, interrupt });
+    let mut r = DeferredReader::from_read(src);
+    r.set_chunk_size(chunk);
+    if lead > 0 {
+        let got = r.request(lead + extra).len();
+        if got < lead {
+            return Some(("C16 the scanner passes over exactly the documented pattern".into(), format!("request({}) on {} bytes exposed only {}", lead + extra, data.len(), got)));
+        }
+        r.advance(lead);
+    }
+    let got = call(sc, &mut r, offset);
+    let (want, _) = reference(sc, s, offset);
+    let hist = format!("after request({}), advance({}) with chunk size {}, {} bytes per read, every {}-th read interrupted (0 = none)", lead + extra, lead, chunk, step, interrupt);
+    if got != want {
+        return Some(("C16 the scanner passes over exactly the documented pattern".into(), format!("{} at offset {} of {:?} {}: returned {}, expected {}", sc_name(sc), offset, show(s), hist, got, want)));
+    }
+    if r.position() != lead {
+        return Some(("C16 the scanner consumes nothing itself".into(), format!("{} at offset {} of {:?} {}: position {} afterwards, expected {}", sc_name(sc), offset, show(s), hist, r.position(), lead)));
+    }
+    let b = r.buf().to_vec();
+    if b.len() > s.len() || b[..] != s[..b.len()] {
+        return Some(("C16 the scanner consumes nothing itself".into(), format!("{} at offset {} of {:?} {}: buffered data afterwards {:?}", sc_name(sc), offset, show(s), hist, show(&b))));
+    }
+    if m.calls_after_end.get() > 0 {
+        return Some(("C16 the scanner requests no more input than is needed to decide".into(), format!("{} at offset {} of {:?} {}: the source was called again after it reported the end", sc_name(sc), offset, show(s), hist)));
     }
     None
 }
@@ -201,6 +256,13 @@ macro_rules! scan_one {
 const FN_NAMES: [&str; 4] = ["ascii_digits", "ascii_digits_multi", "signed_ascii_digits", "signed_ascii_digits_multi"];
 const TYPES: [&str; 12] = ["i8", "u8", "i16", "u16", "i32", "u32", "i64", "u64", "i128", "u128", "isize", "usize"];
 fn check_c13(ty: usize, which: usize, s: &[u8], offset: usize, pre: usize, chunk: usize, step: usize) -> Option<(String, String)> {
+    // a panic of the scanner (or of the reader underneath it) is a wrong answer, not the end of the suite
+    match std::panic::catch_unwind(std::panic::AssertUnwindSafe(|| check_c13_inner(ty, which, s, offset, pre, chunk, step))) {
+        Ok(r) => r,
+        Err(p) => Some(("C13 the scanner returns instead of panicking".into(), format!("panic: {}", panic_msg(p)))),
+    }
+}
+fn check_c13_inner(ty: usize, which: usize, s: &[u8], offset: usize, pre: usize, chunk: usize, step: usize) -> Option<(String, String)> {
     set_case_raw(case_c13, s, &[ty as i64, which as i64, offset as i64, pre as i64, chunk as i64, step as i64]);
     let (mut r, m) = reader_with(s, pre, chunk, step);
     let d0 = m.delivered.get();
@@ -314,6 +376,19 @@ pub fn suite(prop: &str, tier: &str, _seed: u64) -> Report {
                 }
             }
         }
+        // the same scanners after a history of requests and advances (realigned buffers) and with interrupted reads
+        let hn = if tier == "thorough" { 5 } else { 4 };
+        for s in strings.iter().filter(|s| s.len() <= hn) {
+            for si in 0..SCANNERS.len() {
+                for offset in 0..=s.len() + 1 {
+                    for &(lead, extra, chunk, step, interrupt) in &[(0usize, 0usize, 1usize, 1usize, 2usize), (0, 0, 3, 2, 3), (5, 2, 2, 1, 0), (7, 0, 2, 1, 0), (7, 3, 2, 3, 0), (9, 1, 1, 1, 2), (13, 0, 4, 2, 0), (13, 2, 4, 100, 3)] {
+                        rep.runs += 1;
+                        let r = check_c16h(si, s, offset, lead, extra, chunk, step, interrupt);
+                        fail(&mut rep, "c16h", vec![si.to_string(), offset.to_string(), lead.to_string(), extra.to_string(), chunk.to_string(), step.to_string(), interrupt.to_string()], s, r);
+                    }
+                }
+            }
+        }
     }
     if all || prop == "C13" {
         // (a) every string of up to n bytes over a digit-heavy alphabet, narrow types (all boundaries are reachable)
@@ -377,13 +452,13 @@ pub fn suite(prop: &str, tier: &str, _seed: u64) -> Report {
             }
         }
     }
-    rep.bound = "scan: C16: every string of up to 5 (thorough: 6) bytes over {space, tab, CR, LF, a} x 8 scanners (tabs_or_spaces, newline, next_newline, fixed with 5 patterns) x every offset 0..len+1 x every amount of pre-buffered data x 3 refill schedules, delivered bytes counted with one byte per read; C13: every string of up to 4 (thorough: 5) bytes over {0,1,2,5,7,8,9,-,x} for i8/u8/i16/u16 and the values within 11 of every MIN/MAX of the 12 integer types (plus x10, 128-bit limits, lone and double minus), zero padded by 0/1/7/8/20, with 5 suffixes and 3 prefixes, for all four scanners, 12 types, up to 10 amounts of buffered data around the 8-byte fast-path threshold; the reference value comes from the standard library's integer parser".to_string();
+    rep.bound = "scan: C16: every string of up to 5 (thorough: 6) bytes over {space, tab, CR, LF, a} x 8 scanners (tabs_or_spaces, newline, next_newline, fixed with 5 patterns) x every offset 0..len+1 x every amount of pre-buffered data x 3 refill schedules, delivered bytes counted with one byte per read; the strings of up to 4 (thorough: 5) bytes again after 8 histories (0..13 bytes requested and advanced over with chunk sizes 1..4 so that the buffer has been realigned, 0..3 bytes of extra look-ahead, every 2nd or 3rd read interrupted); C13: every string of up to 4 (thorough: 5) bytes over {0,1,2,5,7,8,9,-,x} for i8/u8/i16/u16 and the values within 11 of every MIN/MAX of the 12 integer types (plus x10, 128-bit limits, lone and double minus), zero padded by 0/1/7/8/20, with 5 suffixes and 3 prefixes, for all four scanners, 12 types, up to 10 amounts of buffered data around the 8-byte fast-path threshold; the reference value comes from the standard library's integer parser".to_string();
     rep
 }
 pub fn replay(_prop: &str, args: &[String]) -> i32 {
     let s = unhex(&args[args.len() - 1]);
     let v: Vec<usize> = args[1..args.len() - 1].iter().map(|x| x.parse().unwrap()).collect();
-    let r = if args[0] == "c16" { check_c16(v[0], &s, v[1], v[2], v[3], v[4]) } else { check_c13(v[0], v[1], &s, v[2], v[3], v[4], v[5]) };
+    let r = if args[0] == "c16" { check_c16(v[0], &s, v[1], v[2], v[3], v[4]) } else if args[0] == "c16h" { check_c16h(v[0], &s, v[1], v[2], v[3], v[4], v[5], v[6]) } else { check_c13(v[0], v[1], &s, v[2], v[3], v[4], v[5]) };
     match r {
         Some((c, d)) => {
             println!("FAILS {}: {}", c, d);
